@@ -18,6 +18,9 @@ import (
 type decision struct {
 	val    bool
 	forced bool // implied by the path condition: not added to pc
+	// summary record: the complete local decision sequences of a summarised call (replayed without the solver)
+	sub      [][]decision
+	subAbort bool
 }
 
 type decider struct {
@@ -216,7 +219,15 @@ func (e *Exec) evalModel(t *Term) (bool, bool) {
 	return t.Eval(e.model, map[*Term]uint64{}) != 0, true
 }
 
+func normSc(c Sc) Sc {
+	if c.T != nil && c.T.Op == OpConst {
+		return Sc{C: c.T.K}
+	}
+	return c
+}
+
 func (e *Exec) branch(c Sc) bool {
+	c = normSc(c)
 	if c.T == nil {
 		return c.C != 0
 	}
@@ -249,7 +260,7 @@ func (e *Exec) branch(c Sc) bool {
 	if !canT {
 		r, m := e.check(tT, e.P.cfg.BranchTimeoutMs, e.pathVars)
 		if r == Unsat {
-			d.prefix = append(d.prefix, decision{false, true})
+			d.prefix = append(d.prefix, decision{val: false, forced: true})
 			d.pos++
 			return false
 		}
@@ -261,7 +272,7 @@ func (e *Exec) branch(c Sc) bool {
 	if !canF {
 		r, m := e.check(tF, e.P.cfg.BranchTimeoutMs, e.pathVars)
 		if r == Unsat {
-			d.prefix = append(d.prefix, decision{true, true})
+			d.prefix = append(d.prefix, decision{val: true, forced: true})
 			d.pos++
 			if mT != nil {
 				e.model = mT
@@ -275,13 +286,13 @@ func (e *Exec) branch(c Sc) bool {
 	_ = mF
 	alt := make([]decision, d.pos+1)
 	copy(alt, d.prefix[:d.pos])
-	alt[d.pos] = decision{false, false}
+	alt[d.pos] = decision{val: false, forced: false}
 	if d.alts != nil {
 		*d.alts = append(*d.alts, alt)
 	} else {
 		e.sched.push(e.id, alt)
 	}
-	d.prefix = append(d.prefix, decision{true, false})
+	d.prefix = append(d.prefix, decision{val: true, forced: false})
 	d.pos++
 	e.pushPC(tT)
 	e.model = mT
@@ -289,6 +300,7 @@ func (e *Exec) branch(c Sc) bool {
 }
 
 func (e *Exec) assume(c Sc) {
+	c = normSc(c)
 	if c.T == nil {
 		if c.C == 0 {
 			panic(pathEnd{endInfeasible, "assumption false"})
@@ -312,13 +324,14 @@ func (e *Exec) assume(c Sc) {
 		}
 		e.model = m // nil when unknown
 	}
-	d.prefix = append(d.prefix, decision{true, false})
+	d.prefix = append(d.prefix, decision{val: true, forced: false})
 	d.pos++
 	e.pushPC(c.T)
 }
 
 // obligation checks that c holds on every completion of the current path condition.
 func (e *Exec) obligation(fr *frame, c Sc, label string) {
+	c = normSc(c)
 	if e.local != nil {
 		panic(summaryAbort{"obligation inside summarised function"})
 	}
@@ -346,7 +359,7 @@ func (e *Exec) obligation(fr *frame, c Sc, label string) {
 	if c.T == nil {
 		if c.C != 0 {
 			e.stats.Discharged++
-			d.prefix = append(d.prefix, decision{false, true})
+			d.prefix = append(d.prefix, decision{val: false, forced: true})
 			d.pos++
 			return
 		}
@@ -357,11 +370,11 @@ func (e *Exec) obligation(fr *frame, c Sc, label string) {
 	violated := e.reportIfSat(fr, neg, "assert", label)
 	if !violated {
 		e.stats.Discharged++
-		d.prefix = append(d.prefix, decision{false, true})
+		d.prefix = append(d.prefix, decision{val: false, forced: true})
 		d.pos++
 		return
 	}
-	d.prefix = append(d.prefix, decision{true, false})
+	d.prefix = append(d.prefix, decision{val: true, forced: false})
 	d.pos++
 	if c.T == nil {
 		panic(pathEnd{endViolationStop, "assertion fails on all continuations"})
